@@ -133,18 +133,18 @@ def run(ctx, chk):
             c_, keepv, order, hr, rem = out
             # ---- A2 identity + variant
             if keepv == "Some":
+                ov, fd = R.view(order, p.facts)
                 if order == SUBJ:
                     # self handed back unchanged (a clone): identity holds trivially
                     chk.ok("A2", "%s:%s:self" % (fn_key, V), site)
-                elif not (isinstance(order, tuple) and order[0] == "agg"):
+                elif fd is None:
                     chk.fail("A2", "%s:%s" % (fn_key, V), site, "returned order is not a constructed value: %s" % short(order),
                              describe_path(p), undecided=True)
                     continue
                 else:
-                    if not chk.require(order[2] == V, "A2", "%s:%s:variant" % (fn_key, V), site,
-                                       "order of variant %s comes back as %s" % (V, order[2]), describe_path(p)):
+                    if not chk.require(ov == V, "A2", "%s:%s:variant" % (fn_key, V), site,
+                                       "order of variant %s comes back as %s" % (V, ov), describe_path(p)):
                         continue
-                    fd = dict(order[3])
                     for f in R.identity_fields(V):
                         want = ("field", SUBJ, V, f)
                         chk.require(unsign(fd.get(f)) == want, "A2", "%s:%s:%s" % (fn_key, V, f), site,
